@@ -27,8 +27,8 @@ import (
 
 	"cuelang.org/go/internal/verif/core"
 	"cuelang.org/go/internal/verif/gen"
-	"cuelang.org/go/mod/modzip"
 	"cuelang.org/go/mod/module"
+	"cuelang.org/go/mod/modzip"
 )
 
 func init() {
@@ -388,6 +388,31 @@ func check(r *core.Run, c kase) {
 	}
 }
 
+// foldCollision returns two different path prefixes of the given paths that are
+// equal under Unicode case folding ("" if there are none).
+func foldCollision(paths []string) (string, string) {
+	seen := map[string]bool{}
+	var all []string
+	for _, p := range paths {
+		parts := strings.Split(p, "/")
+		for i := 1; i <= len(parts); i++ {
+			q := strings.Join(parts[:i], "/")
+			if !seen[q] {
+				seen[q] = true
+				all = append(all, q)
+			}
+		}
+	}
+	for i, a := range all {
+		for _, b := range all[i+1:] {
+			if a != b && strings.EqualFold(a, b) {
+				return a, b
+			}
+		}
+	}
+	return "", ""
+}
+
 func sortedSet(s []string) string {
 	t := append([]string{}, s...)
 	sort.Strings(t)
@@ -428,6 +453,13 @@ func checkFiles(r *core.Run, c kase) {
 		r.Outcome("create:rejected")
 		r.Nontrivial()
 		r.State(keyOf("", c))
+		return
+	}
+	// an accepted file set can be extracted on a case-insensitive file system:
+	// no two different spellings of a file or directory path (any prefix of a
+	// valid path) are equal under case folding
+	if a, b := foldCollision(cf.Valid); a != "" {
+		r.Violation(keyOf("accepted file set contains a case-insensitive collision", c), c, fmt.Sprintf("%q and %q differ only in case; valid=%v", a, b, cf.Valid))
 		return
 	}
 	// every archive the creator emits passes the archive checks
